@@ -10,7 +10,7 @@ use serde_json::json;
 
 use crate::isa::{self, Core, Opnd};
 use crate::mc::{self, RefModel};
-use crate::report::{cov, Report, Tier};
+use crate::report::{cov, machinery_fail, Report, Tier};
 use crate::sut::{self, Outcome};
 
 #[derive(Clone, Copy, PartialEq, Eq, Hash, Debug)]
@@ -223,6 +223,9 @@ pub struct Rendered {
     pub code: Vec<u8>,
     pub markers: Vec<String>,
     pub features: BTreeSet<&'static str>,
+    /// byte offsets in `program`: behind the first payload, in front of the last one (the text
+    /// between them is the conditional structure proper)
+    pub cut: (usize, usize),
 }
 
 impl CondModel {
@@ -262,6 +265,8 @@ impl CondModel {
         // kinds meet all structures across the enumeration
         let salt = trace.iter().fold(7usize, |h, a| h.wrapping_mul(31).wrapping_add(match a { Act::If(c, t) => *c as usize * 2 + *t as usize, Act::Elif(c, t) => 20 + *c as usize * 2 + *t as usize, Act::Else => 40, Act::Endif => 41, Act::Exit => 42 }));
         payload(&s, &mut program, &mut flattened, &mut code, &mut markers, salt);
+        let cut_a = program.len();
+        let mut cut_b = program.len();
         let mut all: Vec<Act> = trace.to_vec();
         // close open frames at the end of the trace
         let mut tmp = s.clone();
@@ -343,6 +348,9 @@ impl CondModel {
                 2 => i % 2 == 1,
                 _ => false,
             };
+            if i + 1 == nall {
+                cut_b = program.len();
+            }
             if keep || i + 1 == nall {
                 payload(&s, &mut program, &mut flattened, &mut code, &mut markers, salt);
             }
@@ -350,7 +358,7 @@ impl CondModel {
         if density != 0 {
             features.insert("adjacent-directives");
         }
-        Rendered { program, flattened, code, markers, features }
+        Rendered { program, flattened, code, markers, features, cut: (cut_a, cut_b) }
     }
 }
 
@@ -386,6 +394,8 @@ pub fn run(tier: Tier) -> i32 {
     let outcomes: Mutex<BTreeSet<u64>> = Mutex::new(BTreeSet::new());
     let act_use: Mutex<BTreeMap<String, u64>> = Mutex::new(BTreeMap::new());
     let samples: Mutex<Vec<serde_json::Value>> = Mutex::new(vec![]);
+    let scratch = crate::report::Scratch::new("c08");
+    let n_inc = AtomicU64::new(0);
     let traces = mc::conform(&m, &ex, k, |trace| {
       for density in 0..4u8 {
         let r = m.render_density(trace, density);
@@ -429,6 +439,7 @@ pub fn run(tier: Tier) -> i32 {
             Outcome::Err(e) => bad = Some(("unselected-line-had-effect", format!("the build fails although every selected line is valid: {}", e))),
             Outcome::Panic { site, msg } => bad = Some(("panic", format!("panic at {}: {}", site, msg))),
         }
+        let was_bad = bad.is_some();
         if let Some((kind, what)) = bad {
             let feats = r.features.iter().cloned().collect::<Vec<_>>().join("+");
             let key = format!("C08/{}/features={}", kind, if feats.is_empty() { "plain".to_string() } else { feats });
@@ -436,7 +447,33 @@ pub fn run(tier: Tier) -> i32 {
                 json!({"kind": "build_str", "source": r.program, "trace": format!("{:?}", trace), "program_with_unselected_lines_deleted": r.flattened,
                        "expected": {"result": "ok", "code": sut::hex(&r.code), "message_markers": r.markers}, "observed": o1.to_json()})
             });
-        } else if trace.len() >= 5 {
+        }
+        if !was_bad && (density == 0 || density == 3) && !trace.is_empty() && (tier.thorough() || trace.len() <= 4) && !trace.contains(&Act::Exit) {
+            // the same conditional structure read from an included file (the file begins with
+            // the first directive and ends with the last one): same image, same messages
+            let (a, b) = r.cut;
+            let dir = scratch.path.join(format!("t{}", rayon::current_thread_index().unwrap_or(0)));
+            let _ = std::fs::create_dir_all(&dir);
+            let main = format!("{}.include \"cond.inc\"\n{}", &r.program[..a], &r.program[b..]);
+            let inc = &r.program[a..b];
+            std::fs::write(dir.join("main.asm"), &main).unwrap_or_else(|e| machinery_fail(&format!("cannot write scratch file: {}", e)));
+            std::fs::write(dir.join("cond.inc"), inc).unwrap_or_else(|e| machinery_fail(&format!("cannot write scratch file: {}", e)));
+            let o3 = sut::build_file(dir.join("main.asm"), BTreeSet::new());
+            n_inc.fetch_add(1, Ordering::Relaxed);
+            let same = match (&o1, &o3) {
+                (Outcome::Ok(b1), Outcome::Ok(b3)) => b1.code == b3.code && markers_of(&b1.messages) == markers_of(&b3.messages) && b3.eeprom.is_empty() && b3.ram_filling == 0,
+                _ => false,
+            };
+            if !same {
+                let feats = r.features.iter().cloned().collect::<Vec<_>>().join("+");
+                let key = format!("C08/differs-when-included/features={}", if feats.is_empty() { "plain".to_string() } else { feats });
+                rep.violation(&key, || format!("trace {:?}: the conditional structure gives {} in the main text but {} when it is read from an included file", trace, o1.brief(), o3.brief()), || {
+                    json!({"kind": "file_tree", "files": {"main.asm": main, "cond.inc": inc}, "main": "main.asm", "caller_paths": [], "pasted_program": r.program,
+                           "expected": {"result": "ok", "code": sut::hex(&r.code), "message_markers": r.markers}, "observed": o3.to_json()})
+                });
+            }
+        }
+        if !was_bad && trace.len() >= 5 {
             let mut s = samples.lock().unwrap();
             if s.len() < 2 {
                 s.push(json!({"trace": format!("{:?}", trace), "payload_density": density, "source": r.program, "expected_code": sut::hex(&r.code), "expected_message_markers": r.markers}));
@@ -455,6 +492,7 @@ pub fn run(tier: Tier) -> i32 {
     rep.assume("conditions on literals, .equ constants and .define flags; a condition that must not be evaluated may be ill-formed");
     rep.assume("messages are compared by their marker text, not by format or line number");
     rep.assume("directive lines carry rotating trailing comments (none, with a colon, glued without a blank, //, /* */)");
+    rep.assume("the renderings with a payload after every directive and with adjacent directives are also built with the conditional structure in an included file (traces without .exit, which ends only the file it stands in; quick tier: traces of up to 4 directives)");
     rep.assume("every trace is rendered four times: with a payload line after every directive, after every second one (two phases) and with directly adjacent directives");
     let coverage = cov(json!({
         "states": ex.states,
@@ -462,6 +500,7 @@ pub fn run(tier: Tier) -> i32 {
         "traces_validated_against_impl": traces,
         "renderings_per_trace": 4,
         "programs_built": traces * 4,
+        "renderings_read_from_an_included_file": n_inc.load(Ordering::Relaxed),
         "state_cover_size": ex.states,
         "bound": {"N1_model_depth": n1, "k_extension": k, "nesting": nest},
         "exhaustive": true,
